@@ -1,4 +1,5 @@
 import IoraModel.Lemmas.JsonLimits
+import IoraModel.Lemmas.JsonApi
 /-!
 C13 — JSON texts and values round-trip and agree with RFC 8259.
 
@@ -187,6 +188,175 @@ theorem U1_utf8 : (∀ c : Char, utf8 c.val.toNat = String.utf8EncodeChar c) ∧
     (∀ r cp k, decodeU r = some (cp, k) → ∃ c : Char, c.val.toNat = cp ∧ utf8 cp = String.utf8EncodeChar c) :=
   ⟨utf8_eq_core, fun _ _ _ h => decodeU_utf8 h⟩
 
+
+/-! ### any numeric locale (repair FC13b) -/
+
+/-- **L0 (`detail::jsonToDouble` is locale independent).** In a process whose `LC_NUMERIC` decimal point is ANY `dp` for which libc
+    keeps its contract (`LocaleLibc`: `dp` is not empty and `strtod` reads the localised token as the "C" strtod reads the JSON
+    token), the helper — `find('.')`, `replace(dot, 1, point)`, `strtod` — returns for every JSON number token what the "C" locale's
+    `strtod` returns for it. -/
+theorem L0_toDouble_locale_free (lc : Libc) (dp : Bytes) (hl : LocaleLibc lc dp) (n : SNum) (hok : n.ok) :
+    jsonToDouble lc dp n.render = lc.strtodL pointC n.render :=
+  jsonToDouble_render hl n hok
+
+/-- **L1 (J1 without the "C" locale).** Every RFC 8259 text within the limits is accepted in every such process and decodes to the
+    value it denotes in the "C" locale. -/
+theorem L1_decode_any_locale (lc : Libc) (dp : Bytes) (hl : LocaleLibc lc dp) (lim : Limits) (t : SText) (hok : t.ok) (hfit : t.fits lim) :
+    parse (opsIn lc dp) lim t.render = .ok (t.denote (opsIn lc pointC)) := by
+  rw [parse_render (opsIn lc dp) lim t hok hfit, denote_locale_free hl t hok]
+
+/-- **L2 (J2 without the "C" locale).** The libc facts are assumed for the "C" locale only (`LibcOk (opsIn lc pointC)`); the round
+    trip holds in every process locale. -/
+theorem L2_roundtrip_any_locale (lc : Libc) (dp : Bytes) (hc : LibcOk (opsIn lc pointC)) (hl : LocaleLibc lc dp) (lim : Limits) (o : Opts)
+    (wi : Ws) (hind : wi.render = o.indent) (hns : o.sortKeys = false) (v : Json) (hg : v.Good) (hw : v.within lim 0 0) :
+    parse (opsIn lc dp) lim (serialize (opsIn lc dp) o 0 v) = .ok v :=
+  parse_serialize (opsIn lc dp) (libcOk_opsIn hc hl) lim o wi hind hns v hg hw
+
+theorem L2_roundtrip_sorted_any_locale (lc : Libc) (dp : Bytes) (hc : LibcOk (opsIn lc pointC)) (hl : LocaleLibc lc dp) (lim : Limits)
+    (o : Opts) (wi : Ws) (hind : wi.render = o.indent) (v : Json) (hg : v.Good) (hw : v.within lim 0 0) :
+    parse (opsIn lc dp) lim (serialize (opsIn lc dp) { o with sortKeys := true } 0 v) = .ok (sortDeep v) ∧ eqv v (sortDeep v) = true :=
+  parse_serialize_sorted (opsIn lc dp) (libcOk_opsIn hc hl) lim o wi hind v hg hw
+
+/-- **L3 (J3 without the "C" locale).** -/
+theorem L3_output_any_locale (lc : Libc) (dp : Bytes) (hc : LibcOk (opsIn lc pointC)) (hl : LocaleLibc lc dp) (o : Opts) (wi : Ws)
+    (hind : wi.render = o.indent) (v : Json) (hg : v.Good) (hu : v.utf8) :
+    ∃ t : SVal, t.ok ∧ t.strict ∧ t.render = serialize (opsIn lc dp) o 0 v ∧
+      t.denote (opsIn lc dp) = (if o.sortKeys then sortDeep v else v) :=
+  J3_output_in_grammar (opsIn lc dp) (libcOk_opsIn hc hl) o wi hind v hg hu
+
+/-- **L4 (the serializer writes the same bytes in every locale).** `dump()` / `serialize` of ANY value (no hypothesis on the value) under
+    decimal point `dp` is byte for byte the "C"-locale output. -/
+theorem L4_output_bytes_locale_free (lc : Libc) (dp : Bytes) (hc : LibcOk (opsIn lc pointC)) (hl : LocaleLibc lc dp) (o : Opts) (v : Json) :
+    serialize (opsIn lc dp) o 0 v = serialize (opsIn lc pointC) o 0 v :=
+  serialize_locale_free hc hl o 0 v
+
+/-- a toy libc with a locale: reads the leading digits whatever follows them -/
+def toyLibc : Libc := { strtodL := fun _ tok => toyOps.strtod tok, toCharsG := toyOps.printfG }
+
+theorem toyLibc_C : opsIn toyLibc pointC = toyOps := by
+  simp only [opsIn, toyLibc, toyOps]
+  congr 1
+
+/-- the hypotheses of L0–L3 are satisfiable with a decimal COMMA -/
+theorem LocaleLibc_satisfiable : LibcOk (opsIn toyLibc pointC) ∧ LocaleLibc toyLibc [0x2C] := by
+  refine ⟨by rw [toyLibc_C]; exact libcOk_toy, by decide, ?_⟩
+  intro n hok
+  show UInt64.ofNat (decVal (leadDigits (n.renderL [0x2C]))) = UInt64.ofNat (decVal (leadDigits n.render))
+  congr 2
+  simp only [SNum.renderL, SNum.render, List.append_assoc]
+  cases n.neg with
+  | true => simp [leadDigits, isDigit]
+  | false =>
+    simp only [Bool.false_eq_true, ↓reduceIte, List.nil_append]
+    have hexp : NoDigitHead n.renderExp := by
+      intro b r e
+      unfold SNum.renderExp at e
+      cases he : n.exp with
+      | none => simp [he] at e
+      | some t =>
+        obtain ⟨u, s, ds⟩ := t
+        simp only [he, List.cons.injEq] at e
+        obtain ⟨rfl, -⟩ := e
+        cases u <;> rfl
+    rw [leadDigits_append _ _ (natToDec_digits _), leadDigits_append _ _ (natToDec_digits _)]
+    · unfold SNum.renderFrac
+      cases n.frac with
+      | none => simpa using hexp
+      | some ds => intro b r e; simp only [List.cons_append, List.cons.injEq] at e; obtain ⟨rfl, -⟩ := e; rfl
+    · cases n.frac with
+      | none => simpa using hexp
+      | some ds => intro b r e; simp only [List.cons_append, List.nil_append, List.cons.injEq] at e; obtain ⟨rfl, -⟩ := e; rfl
+
+/-- the helper at work under a decimal comma: `-12.5e3` is handed to strtod as `-12,5e3` -/
+example : substPoint [0x2C] [0x2D, 0x31, 0x32, 0x2E, 0x35, 0x65, 0x33] = [0x2D, 0x31, 0x32, 0x2C, 0x35, 0x65, 0x33] := by decide
+
+/-! ### non-finite doubles -/
+
+/-- **J3 for non-finite doubles (`NaN`, `±Infinity`).** RFC 8259 has no text for them; `_formatDouble` writes `null`.  For EVERY value
+    whose finite part is good (`v.nullify`: every non-finite double replaced by null) the output is the output for `v.nullify`: strict
+    RFC 8259 text denoting `v.nullify` — valid JSON, but the round trip yields `null` where the value had NaN/Infinity (J2 cannot
+    hold there and is not claimed). -/
+theorem J3_nonfinite (ops : FloatOps) (hl : LibcOk ops) (o : Opts) (wi : Ws) (hind : wi.render = o.indent) (v : Json)
+    (hg : v.nullify.Good) (hu : v.nullify.utf8) :
+    serialize ops o 0 v = serialize ops o 0 v.nullify ∧
+    ∃ t : SVal, t.ok ∧ t.strict ∧ t.render = serialize ops o 0 v ∧
+      t.denote ops = (if o.sortKeys then sortDeep v.nullify else v.nullify) := by
+  have h := (serialize_nullify ops o 0 v).symm
+  refine ⟨h, ?_⟩
+  rw [h]
+  exact J3_output_in_grammar ops hl o wi hind v.nullify hg hu
+
+/-- NaN, +Infinity and -Infinity inside an array serialize as `[null,null,null]` whatever libc does -/
+example (ops : FloatOps) : serialize ops { pretty := false } 0 (.arr [.dbl 0x7FF8000000000000, .dbl 0x7FF0000000000000, .dbl 0xFFF0000000000000])
+    = [0x5B, 0x6E, 0x75, 0x6C, 0x6C, 0x2C, 0x6E, 0x75, 0x6C, 0x6C, 0x2C, 0x6E, 0x75, 0x6C, 0x6C, 0x5D] := by
+  rfl
+
+/-! ### `JsonStreamParser` and the public wrappers -/
+
+/-- **S1 (stream = parse of the concatenation).** For EVERY chunking of a text that `parse` accepts under the parser's limits:
+    after the feeds `finish()` is true, the parser is complete and `value()` is `parse` of the whole text. -/
+theorem S1_stream_accepts (ops : FloatOps) (lim : Limits) (chunks : List Bytes) (v : Json) (h : parse ops lim chunks.flatten = .ok v) :
+    (streamRun ops lim chunks).2 = true ∧ (streamRun ops lim chunks).1.complete = true ∧ (streamRun ops lim chunks).1.value = v :=
+  stream_complete_of_parse ops lim chunks v h
+
+/-- **S2 (an incomplete stream reports the error of the whole text).** -/
+theorem S2_stream_error (ops : FloatOps) (lim : Limits) (chunks : List Bytes) (h : (streamRun ops lim chunks).1.complete = false) :
+    (streamRun ops lim chunks).2 = false ∧
+      ∃ e, parse ops lim chunks.flatten = .error e ∧ (streamRun ops lim chunks).1.error = some (chunks.flatten, e) :=
+  stream_incomplete ops lim chunks h
+
+/-- **S3 (a latched value is the parse of a chunk-boundary prefix)** — so it respects the limits (J4) whatever is fed afterwards.
+    (The latch is not released by later feeds: `feed("1")`, `feed(" x")` leaves `complete()` with value 1 — the model's and the
+    code's behaviour; S1 is the statement for texts that parse as a whole.) -/
+theorem S3_stream_value (ops : FloatOps) (lim : Limits) (chunks : List Bytes) (h : (streamRun ops lim chunks).1.complete = true) :
+    ∃ k, k ≤ chunks.length ∧ parse ops lim (chunks.take k).flatten = .ok (streamRun ops lim chunks).1.value ∧
+      (streamRun ops lim chunks).1.value.within lim strSlack 0 := by
+  obtain ⟨k, hk, hp⟩ := stream_value_is_prefix_parse ops lim chunks h
+  exact ⟨k, hk, hp, (parse_accepted ops lim _ _ hp).1⟩
+
+example : (streamRun ⟨fun _ => 0, fun _ _ => []⟩ {} [[0x31], [0x20, 0x78]]).1.complete = true ∧
+    (streamRun ⟨fun _ => 0, fun _ _ => []⟩ {} [[0x31], [0x20, 0x78]]).1.value = .int 1 := by
+  constructor <;> rfl
+
+/-- **W1 (throwing wrappers).** `parseOrThrow` returns exactly what `parse` accepts, and throws exactly `parse`'s error with the
+    line/column of its offset (`_getLocation`). -/
+theorem W1_parseOrThrow (ops : FloatOps) (lim : Limits) (bs : Bytes) :
+    (∀ v, parseOrThrow ops lim bs = .ok v ↔ parse ops lim bs = .ok v) ∧
+    (∀ t, parseOrThrow ops lim bs = .error t ↔ ∃ k off, parse ops lim bs = .error (k, off) ∧ t = (k, location bs off)) :=
+  ⟨parseOrThrow_ok ops lim bs, parseOrThrow_error ops lim bs⟩
+
+/-- **W3 (`_getLocation`).** The line reported for offset `off` is 1 + the number of line feeds before it; the column is at least 1
+    and at most `off + 1`. -/
+theorem W3_location (bs : Bytes) (off : Nat) :
+    (location bs off).1 = 1 + (bs.take off).count 0x0A ∧ 1 ≤ (location bs off).2 ∧ (location bs off).2 ≤ off + 1 :=
+  location_spec bs off
+
+/-- **W2 (the gap of `operator>>`, review F3).**  `operator<<` writes `dump()` of any value, `operator>>` reads with the DEFAULT
+    `ParseLimits`: a value beyond the defaults (here an array of `arrayItemsMaxDefault + 1` nulls — a good value with valid strings)
+    does NOT come back through the stream operators, although J2 holds for it under limits that allow it.  This is why J2 carries
+    `v.within lim`; `JsonFileStore` (property C11) reads its own file this way. -/
+theorem W2_stream_operators_gap (ops : FloatOps) :
+    ∃ v : Json, v.Good ∧ v.utf8 ∧ readStream ops (writeStream ops v) ≠ .ok v := by
+  refine ⟨.arr (List.replicate (Gen.Json.arrayItemsMaxDefault + 1) .null), ?_, ?_, ?_⟩
+  · have : ∀ n, Json.GoodList (List.replicate n .null) := by
+      intro n; induction n with
+      | zero => simp [Json.GoodList]
+      | succ n ih => simp [List.replicate_succ, Json.GoodList, Json.Good, ih]
+    simpa [Json.Good] using this _
+  · have hn : Json.null.utf8 := by unfold Iora.Json.Json.utf8; trivial
+    have : ∀ n, Json.utf8List (List.replicate n .null) := by
+      intro n; induction n with
+      | zero => simp [Json.utf8List]
+      | succ n ih => simp [List.replicate_succ, Json.utf8List, hn, ih]
+    have h2 := this (Gen.Json.arrayItemsMaxDefault + 1)
+    unfold Iora.Json.Json.utf8
+    exact h2
+  · intro h
+    have hp := (parseOrThrow_ok ops {} _ _).mp h
+    have hw := (parse_accepted ops {} _ _ hp).1
+    simp only [Json.within, List.length_replicate] at hw
+    omega
+
 /-! ### conformance of the generated facts (`Gen/Json.lean`, regenerated from the working tree on every run)
 
 The model *uses* the limits defaults, the four guards, both escape tables, the surrogate constants, the UTF-8 thresholds and the
@@ -212,6 +382,38 @@ def sizeCap : Nat := 100000
 /-- largest default `stringLengthMax` the boundary stream reaches exactly -/
 def stringCap : Nat := 2000000
 
+/-- the longest text `%.17g` produces for a double: sign, 17 digits, the point, `e`, exponent sign, three exponent digits -/
+def fmtLongest : Nat := 1 + Gen.Json.fmtPrecHi + 1 + 1 + 1 + 3
+
+example : fmtLongest = ("-1.7976931348623157e+308".length) := by decide
+
+/-- what `Model/JsonApi.lean` mirrors, statement by statement (white space normalised): the constructors `ofUInt64` / `ofFloat` /
+    `ofInitList`, copy assignment (identity on values), `pushBack`, `setIndex`, `setKey`, `dumpOpts`/`dump`, `readStream` (DEFAULT limits:
+    `parseOrThrow(content)` has no limits argument), `writeStream`, `toStdString`, `parseOrThrow`, `parseFlag`, `StreamSt.feed`,
+    `StreamSt.finish` -/
+def expectedSurface : List (String × String) := [
+  ("Json(integral T)", "static_cast<std::int64_t>(i)"),
+  ("Json(float)", "static_cast<double>(f)"),
+  ("Json(double)", "d"),
+  ("Json(initializer_list)", "Array(init)"),
+  ("operator=(const Json&)", "if (this != &other) { _value = other._value; }"),
+  ("push_back(const Json&)", "if (!isArray()) { _value = Array{}; } getArray().push_back(val);"),
+  ("push_back(Json&&)", "if (!isArray()) { _value = Array{}; } getArray().push_back(std::move(val));"),
+  ("operator[](size_t)", "if (!isArray()) { _value = Array{}; } auto &arr = getArray(); while (arr.size() <= index) { arr.push_back(Json()); } return arr[index];"),
+  ("operator[](const std::string&)", "if (!isObject()) { _value = Object{}; } return getObject()[key];"),
+  ("dump", "SerializeOptions opts; if (indent >= 0) { opts.pretty = true; opts.indent = std::string(indent, indent_char); } opts.sortKeys = sort_keys; return serialize(opts);"),
+  ("operator>>", "std::string content((std::istreambuf_iterator<char>(is)), std::istreambuf_iterator<char>()); j = Json::parseOrThrow(content); return is;"),
+  ("operator<<", "os << j.dump(); return os;"),
+  ("operator std::string", "if (isString()) return getString(); return dump();"),
+  ("parseOrThrow", "auto result = parse(text, limits); if (!result.ok) { throw parse_error(\"JSON parse error at line \" + std::to_string(result.error.where.line) + \", column \" + std::to_string(result.error.where.column) + \": \" + result.error.message); } return std::move(result.value);"),
+  ("safe_parse", "auto result = parse(std::string_view(text)); return result.ok ? std::move(result.value) : Json();"),
+  ("parse(text, nullptr, bool)", "if (allow_exceptions) { return parseOrThrow(text); } else { auto result = parse(std::string_view(text)); return result.ok ? std::move(result.value) : Json(); }"),
+  ("JsonStreamParser::feed", "_buffer.append(chunk.data(), chunk.size()); auto result = Json::parse(_buffer, _limits); if (result.ok) { _value = std::move(result.value); _complete = true; _error = JsonError{}; return true; } else { _error = result.error; return false; }"),
+  ("JsonStreamParser::finish", "if (_complete) return true; auto result = Json::parse(_buffer, _limits); if (result.ok) { _value = std::move(result.value); _complete = true; _error = JsonError{}; return true; } _error = result.error; return false;"),
+  ("parse(const std::string&)", "return parseOrThrow(text);"),
+  ("parseString", "return parseOrThrow(text);"),
+  ("serialize", "return _serialize(options, 0);")]
+
 /-- `_parseHex4`'s digit ranges as the model's `hexVal` -/
 def hexValGen (b : UInt8) : Option Nat :=
   Gen.Json.hexRanges.findSome? fun (lo, hi, base) => if lo ≤ b.toNat ∧ b.toNat ≤ hi then some (b.toNat - lo + base) else none
@@ -223,21 +425,24 @@ theorem gen_conformance :
     Gen.Json.dispatch = [("_parseNull", [0x6E]), ("_parseBool", [0x74, 0x66]), ("_parseString", [0x22]), ("_parseArray", [0x5B]),
       ("_parseObject", [0x7B]), ("_parseNumber", [0x2D, 0x30, 0x31, 0x32, 0x33, 0x34, 0x35, 0x36, 0x37, 0x38, 0x39])] ∧
     (Gen.Json.wsPredicate, Gen.Json.digitPredicate, Gen.Json.intType, Gen.Json.intConversion, Gen.Json.doubleConversion,
-      Gen.Json.memberInsertion) = ("std::isspace", "std::isdigit", "int64_t", "std::from_chars", "std::strtod", "operator[]-assign") ∧
+      Gen.Json.memberInsertion) = ("std::isspace", "std::isdigit", "int64_t", "std::from_chars", "detail::jsonToDouble", "operator[]-assign") ∧
     (∀ n, n < 256 → Iora.Json.hexVal (b8 n) = hexValGen (b8 n)) ∧
     Gen.Json.appendUtf8Literals = [127, 2047, 192, 6, 128, 63, 65535, 224, 12, 128, 6, 63, 128, 63, 240, 18, 128, 12, 63, 128, 6, 63, 128, 63] ∧
-    (Gen.Json.serControlFormat, Gen.Json.fmtFormat, Gen.Json.fmtNonFinite) = ("%04x", "%.*g", "null") ∧
+    (Gen.Json.serControlFormat, Gen.Json.fmtFormat, Gen.Json.fmtNonFinite, Gen.Json.toDoublePrimitive) =
+      ("%04x", "std::to_chars/general", "null", "std::strtod") ∧
     (Gen.Json.fmtPrecLo = 15 ∧ Gen.Json.fmtPrecHi = 17 ∧ Gen.Json.fmtMarkers = [0x2E, 0x65, 0x45] ∧ Gen.Json.fmtSuffix = [0x2E, 0x30]) ∧
+    Gen.Json.publicSurface = expectedSurface ∧
     Gen.Json.serArrayLiterals = ["[]", "[", "\n", ",", "\n", "]"] ∧
     Gen.Json.serObjectLiterals = ["{}", "{", "\n", ":", " ", ",", "\n", "}"] ∧
-    -- the <cctype> predicates get an `unsigned char`; `_formatDouble`'s buffer is an automatic array big enough for %.17g
-    (Gen.Json.charClassArg = "unsigned char" ∧ Gen.Json.fmtBufAutomatic = true ∧ 25 ≤ Gen.Json.fmtBufSize) ∧
+    -- the <cctype> predicates get an `unsigned char`; `_formatDouble`'s buffer is an automatic array big enough for the longest
+    -- `%.17g` text (`-1.7976931348623157e+308`: `fmtLongest` characters; `std::to_chars` writes no terminator)
+    (Gen.Json.charClassArg = "unsigned char" ∧ Gen.Json.fmtBufAutomatic = true ∧ fmtLongest ≤ Gen.Json.fmtBufSize) ∧
     -- the DEFAULT limits stay where this check exercises them: nesting is bounded by the measured stack-safe depth (the recursive
     -- descent uses one C++ stack frame chain per level; props/c13.py measures the bytes per level of the real parser on every run and
     -- checks `stackSafeDepth * bytes per level <= 1/4 of the default 8 MiB stack`), sizes by the generator's boundary stream
     (Gen.Json.depthMaxDefault ≤ stackSafeDepth ∧ Gen.Json.arrayItemsMaxDefault ≤ sizeCap ∧ Gen.Json.membersMaxDefault ≤ sizeCap ∧
       Gen.Json.stringLengthMaxDefault ≤ stringCap) := by
   refine ⟨by decide, by decide, by decide, by decide, by decide +kernel, by decide, by decide, by decide, by decide, by decide,
-    by decide, by decide⟩
+    by decide, by decide, by decide⟩
 
 end Iora.C13
